@@ -159,6 +159,35 @@ def d8(ctx, rep, prog):
         occ[base] = occ.get(base, 0) + 1
         rep.fail('D8', f'{base}#{occ[base]}', f"`{norm(c['snippet'])[:80]}` ({c['callee'][-70:]}) in {prog.bodies[k]['id']} is reachable from a walker thread callback ({' -> '.join(x.split('::')[-1] for x in prog.path_to(pred, k)[-4:])}): "
                  'the worker reads state other walker threads write, so what is parsed or kept for a file depends on thread scheduling', {'file': c['file'], 'line': c['line']})
+    # worker-local history: the callback invoked once per directory entry (its argument is the walker's Result<DirEntry, Error>)
+    # mutably borrows or assigns a variable it captured from the per-thread builder closure — state that survives from one
+    # entry to the next.  Work stealing decides which entries one thread sees and in which order, so anything derived from it
+    # depends on scheduling.
+    per_entry = [k for k in kids if str(prog.bodies[k]['locals'].get('_2', '')).replace(' ', '').startswith('std::result::Result<ignore::DirEntry,')]
+    rep.analysed['D8:per-entry walker callbacks'] = len(per_entry)
+    carried = []
+    for k in per_entry:
+        b = prog.bodies[k]
+        upv = {m_.group(1): (nm, m_.group(2)) for nm, pl in (b.get('names') or {}).items() for m_ in [re.match(r'\(\(\*_1\)\.(\d+): (.*)\)$', str(pl))] if m_}
+        for blk in b.get('blocks', []):
+            for st in list(blk.get('stmts', [])) + [blk.get('term') or '']:
+                for m_ in re.finditer(r'&mut \(\(\*_1\)\.(\d+)', st):
+                    carried.append((k, m_.group(1), upv.get(m_.group(1), ('?', '?'))))
+                m2 = re.match(r'\(\(\*_1\)\.(\d+)[^=]*\) = ', st)
+                if m2:
+                    carried.append((k, m2.group(1), upv.get(m2.group(1), ('?', '?'))))
+    seen_c = set()
+    for k, ix, (nm, ty) in carried:
+        if (k, ix) in seen_c:
+            continue
+        seen_c.add((k, ix))
+        b = prog.bodies[k]
+        if re.match(r'(std::string::String|std::vec::Vec<u8>|std::path::PathBuf)$', ty.strip()):
+            raise core.Incomplete(f"D8: the per-entry walker callback {b['id']} reuses a captured buffer `{nm}: {ty}` across entries — whether it is reset before every use is not modelled, no verdict")
+        rep.fail('D8', f"worker-local-history:{nm}", f"the per-entry walker callback {b['id']} mutates `{nm}: {ty[:80]}`, a variable captured from the per-thread builder closure: it survives from one directory entry to the next, "
+                 'so what is computed for a file depends on which files the same walker thread happened to be handed before (work stealing) — the result is no longer a function of the file alone', {'file': b['file'], 'line': b['line']})
+    if per_entry and not carried:
+        rep.ok('D8', 'worker-local-history', f'{len(per_entry)} per-entry callback(s): captured variables are only read (shared borrows / channel send), nothing is carried from one entry to the next')
     if not hits:
         rep.ok('D8', 'worker-shared-state', f'{len(pred)} bodies reachable from the walker callbacks: no lock / atomic read / thread-local / once-cell access; results leave a worker only through the channel', {'file': 'cli/src/parse.rs', 'line': prog.bodies[pp[0]]['line']})
 
